@@ -136,6 +136,14 @@ class TgtAdapter(Tgt):
     adaptee = Any()
 
 
+class TgtStandin(HasTraits):
+    """a stand-in (transparent proxy, mock with a spec): its __class__ attribute reports Tgt, its type is unrelated and has no
+    adaptation offer - adaptation fails, the isinstance check that follows passes"""
+    @property
+    def __class__(self):
+        return Tgt
+
+
 def _src_to_tgt(adaptee):
     return TgtAdapter(adaptee=adaptee) if adaptee.ok else None      # conditional factory
 
@@ -278,6 +286,8 @@ def mk_value(ex, kind, tag="v"):
         return Src(ok=True)
     if kind == "src_no":
         return Src(ok=False)
+    if kind == "standinTgt":
+        return TgtStandin()
     if kind == "instTgt":
         return Tgt()
     if kind == "classA":
@@ -432,13 +442,13 @@ CONFIGS = {
     "InstanceA_clone_none": (lambda ex: Instance(A, allow_none=False)(allow_none=True), ["none", "instA", "instU", "object"]),
     "AdaptYes_clone_nonone": (lambda ex: Instance(Tgt, adapt="yes")(allow_none=False), ["none", "src_ok", "src_no", "instTgt"]),
     "InstanceInt": (lambda ex: Instance(int), ["none", "bool", "int", "intsub", "float", "object", "npint"]),
-    "AdaptYes": (lambda ex: Instance(Tgt, adapt="yes"), ["none", "src_ok", "src_no", "instTgt", "instU", "int"]),
-    "AdaptYes_nonone": (lambda ex: Instance(Tgt, adapt="yes", allow_none=False), ["none", "src_ok", "src_no", "instTgt", "instU"]),
-    "AdaptDefault": (lambda ex: Instance(Tgt, (), adapt="default"), ["none", "src_ok", "src_no", "instTgt", "instU"]),
-    "AdaptDefault_nonone": (lambda ex: Instance(Tgt, (), adapt="default", allow_none=False), ["none", "src_ok", "src_no", "instTgt"]),
-    "AdaptNo": (lambda ex: Instance(Tgt, adapt="no"), ["none", "src_ok", "instTgt", "instU"]),
-    "EitherAdaptInt": (lambda ex: Either(Instance(Tgt, adapt="yes", allow_none=False), Int), ["none", "src_ok", "src_no", "instTgt", "instU", "int", "bool"]),
-    "EitherAdaptDefaultStr": (lambda ex: Either(Instance(Tgt, (), adapt="default", allow_none=False), Str), ["none", "src_ok", "src_no", "instTgt", "str"]),
+    "AdaptYes": (lambda ex: Instance(Tgt, adapt="yes"), ["standinTgt", "none", "src_ok", "src_no", "instTgt", "instU", "int"]),
+    "AdaptYes_nonone": (lambda ex: Instance(Tgt, adapt="yes", allow_none=False), ["standinTgt", "none", "src_ok", "src_no", "instTgt", "instU"]),
+    "AdaptDefault": (lambda ex: Instance(Tgt, (), adapt="default"), ["standinTgt", "none", "src_ok", "src_no", "instTgt", "instU"]),
+    "AdaptDefault_nonone": (lambda ex: Instance(Tgt, (), adapt="default", allow_none=False), ["standinTgt", "none", "src_ok", "src_no", "instTgt"]),
+    "AdaptNo": (lambda ex: Instance(Tgt, adapt="no"), ["standinTgt", "none", "src_ok", "instTgt", "instU"]),
+    "EitherAdaptInt": (lambda ex: Either(Instance(Tgt, adapt="yes", allow_none=False), Int), ["standinTgt", "none", "src_ok", "src_no", "instTgt", "instU", "int", "bool"]),
+    "EitherAdaptDefaultStr": (lambda ex: Either(Instance(Tgt, (), adapt="default", allow_none=False), Str), ["standinTgt", "none", "src_ok", "src_no", "instTgt", "str"]),
     "EitherAdaptNoneOk": (lambda ex: Either(Instance(Tgt, adapt="yes"), Float), ["none", "src_ok", "src_no", "float"]),
     "This": (lambda ex: This(), ["none", "instA", "instB", "instU", "instOwner", "instOwnerSub", "int", "object"]),
     "This_nonone": (lambda ex: This(allow_none=False), ["none", "instA", "instOwner", "instOwnerSub", "instU"]),
